@@ -512,9 +512,41 @@ func (d *cfgDynamic) withValue(err *error, opts *options, fn func(value)) {
 
 func (d *cfgDynamic) getValue(opts *options) (value, error) {
 	verifYield("cfgDynamic.getValue")
-	return opts.parsed.cachedValue(d.id, func() (value, error) {
-		return d.dyn.getValue(&d.cfgPrimitive, opts)
-	})
+	id := string(d.id)
+
+	// The value of d depends on the set of references being active (cycle
+	// detection, absorbed by default values and resolvers). A cached value is
+	// reused only if none of the references resolved when computing it is
+	// active now: the evaluation would take exactly the same steps again.
+	if cached, ok := opts.parsed[id]; ok {
+		usable := true
+		for _, name := range cached.deps {
+			if opts.activeFields.Has(name) {
+				usable = false
+				break
+			}
+		}
+		if usable {
+			opts.eval.add(cached.deps...)
+			if cached.err != nil {
+				return nil, cached.err
+			}
+			return cached.value, nil
+		}
+	}
+
+	cycles := opts.eval.cycles
+	opts.eval.push()
+	v, err := d.dyn.getValue(&d.cfgPrimitive, opts)
+	deps := opts.eval.pop()
+
+	// Only primitives can be cached, allowing us to get out of infinite loop.
+	// A value computed while a cyclic reference has been detected is specific
+	// to the references active right now.
+	if v != nil && v.canCache() && opts.eval.cycles == cycles {
+		opts.parsed[id] = spliceValue{err: err, value: v, deps: deps}
+	}
+	return v, err
 }
 
 func (d cfgDynamic) canCache() bool {
